@@ -210,7 +210,7 @@ def parseHexBytes (s : String) : Option (List Nat) :=
     go cs
   | _ => none
 
-def checkFault (want : List Nat) (res : String) (mode k : Nat) : String :=
+def checkFault3 (want : List Nat) (res : String) (mode k : Nat) : String :=
   match res.splitOn "/" with
   | [ns, es, hx] =>
     match ns.toNat?, parseHexBytes hx with
@@ -223,6 +223,22 @@ def checkFault (want : List Nat) (res : String) (mode k : Nat) : String :=
       else "ok"
     | _, _ => s!"FAIL unparsable fault result {res}"
   | _ => s!"FAIL Fprint/Fwrite to a failing writer did not return normally: {res}"
+
+/-- `written/err/xBYTES` or, on a counting source used by this script alone,
+`written/err/xBYTES/after` where `after` = calls the digit source received between the moment the
+writer first reported its fault and the return of Fprint/Fwrite (producer quiescent). C12: "stop
+consuming digits promptly after the fault" — once the writer has failed nothing more is requested. -/
+def checkFault (want : List Nat) (res : String) (mode k : Nat) : String :=
+  match res.splitOn "/" with
+  | [ns, es, hx, after] =>
+    match checkFault3 want (ns ++ "/" ++ es ++ "/" ++ hx) mode k with
+    | "ok" =>
+      (match after.toNat? with
+       | some 0 => "ok"
+       | some a => fail "digits requested from the source after the writer had reported its fault" (toString a) "0"
+       | none => s!"FAIL unparsable fault result {res}")
+    | bad => bad
+  | _ => checkFault3 want res mode k
 
 /-- check one statement; returns the verdict ("ok" / "FAIL …") and the new state -/
 def specStmt (v : String) (sd : SD) (st : SSt) (s : Stmt) (res : String) : String × SSt :=
